@@ -107,6 +107,103 @@ let parse_expect s =
     end) items;
   { e_init = !init; e_toks = List.rev !toks; e_api = List.rev !api }
 
+
+(* ---------------- DIFF: the request-submission model (coq/Alloc/SendAlloc.v) ---------------- *)
+type grp = GKey | GQuery | GDup | G0x20 | GAll | GQid | GConn | GCq | GBuf | GCnode | GSock | GWrite | GTmo | GCqn
+
+let grp_name = function
+  | GKey -> "G_key" | GQuery -> "G_query" | GDup -> "G_dup" | G0x20 -> "G_0x20" | GAll -> "G_all"
+  | GQid -> "G_qid" | GConn -> "G_conn" | GCq -> "G_cq" | GBuf -> "G_out/in" | GCnode -> "G_cnode"
+  | GSock -> "G_sock" | GWrite -> "G_write" | GTmo -> "G_tmo" | GCqn -> "G_cqn"
+
+(* allocation group of a failing call stack (innermost frame first), if the failing allocation
+   belongs to a fresh submission through ares_send_nolock *)
+let group_of_stack stack =
+  let fr = Array.of_list (String.split_on_char '<' stack) in
+  let idx name = let r = ref (-1) in Array.iteri (fun i f -> if !r < 0 && f = name then r := i) fr; !r in
+  let callee i = if i > 0 then Some fr.(i - 1) else None in
+  let i = idx "ares_send_nolock" in
+  if i < 0 || Array.exists (fun f -> f = "~") fr then None
+  else match callee i with
+    | None -> Some GQuery
+    | Some "ares_qcache_fetch" -> Some GKey
+    | Some "ares_dns_record_duplicate_ex" -> Some GDup
+    | Some "ares_apply_dns0x20" -> Some G0x20
+    | Some "ares_llist_insert_last" -> Some GAll
+    | Some "ares_htable_szvp_insert" -> Some GQid
+    | Some "ares_send_query" ->
+      (match callee (i - 1) with
+       | Some "ares_open_connection" ->
+         (match callee (i - 2) with
+          | None -> Some GConn
+          | Some "ares_llist_create" -> Some GCq
+          | Some "ares_buf_create" -> Some GBuf
+          | Some "ares_llist_insert_first" | Some "ares_llist_insert_last" -> Some GCnode
+          | Some "ares_htable_asvp_insert" -> Some GSock
+          | _ -> None)
+       | Some "ares_conn_query_write" -> Some GWrite
+       | Some "ares_slist_insert" -> Some GTmo
+       | Some "ares_llist_insert_last" -> Some GCqn
+       | _ -> None)
+    | _ -> None
+
+let cfg_flag cfg name =
+  match kv "flags" cfg with
+  | None -> false
+  | Some v -> List.mem name (String.split_on_char ',' v)
+
+let ntolerated = ref 0
+(* returns Some (description of the disagreement) *)
+let send_model_diff cfg g ~reuse ~impl_ret ~impl_cbs ~impl_close =
+  let nocache = (kv "qcachettl" cfg = Some "0") in
+  let usevc = cfg_flag cfg "usevc" and x20 = cfg_flag cfg "dns0x20" in
+  let seq = (if nocache then [] else [GKey]) @ [GQuery; GDup]
+            @ (if x20 && not usevc then [G0x20] else []) @ [GAll; GQid]
+            @ (if reuse then [] else [GConn; GCq; GBuf; GBuf; GCnode; GSock]) @ [GWrite; GTmo; GCqn] in
+  let rec pos i = function [] -> None | x :: r -> if x = g then Some i else pos (i + 1) r in
+  match pos 0 seq with
+  | None -> Some (Printf.sprintf "group %s is not on the model's path for this configuration" (grp_name g))
+  | Some k ->
+    let zi = z_of_int in
+    let ok = zi 0 in
+    let e = { e_nservers = nat_of_int 1; e_tries = nat_of_int 2; e_nocache = nocache; e_noretry = false;
+              e_cache = zi 4; e_dup = ok; e_usevc = usevc; e_0x20 = x20; e_0x20_status = ok;
+              e_server = (fun _ -> true); e_reuse = (fun _ -> if reuse then Some O else None);
+              e_sock = (fun _ -> ok); e_write = (fun _ -> ok) } in
+    let n = nat_of_int in
+    let c0 = { cn_blk = n 100; cn_cq = n 101; cn_out = n 102; cn_in = n 103; cn_node = n 104; cn_sock = n 105;
+               cn_tcp = usevc; cn_queries = []; cn_total = O } in
+    let ch = { ch_all = []; ch_byqid = []; ch_bytmo = []; ch_conns = (if reuse then [c0] else []); ch_closed = O } in
+    let h = { h_next = n 200; h_live = (if reuse then List.map n [105; 104; 103; 102; 101; 100] else []) } in
+    (match send_nolock (fail_at (n (200 + k))) e ch (zi 1) h with
+     | Ok (r, h') ->
+       let m_ret = int_of_z r.r_status and m_cbs = List.map int_of_z r.r_cbs in
+       let m_close = int_of_nat r.r_chan.ch_closed > 0 in
+       let m_leak = List.length h'.h_live - List.length h.h_live
+                    - 6 * (List.length r.r_chan.ch_conns - List.length ch.ch_conns) in
+       (* a callee may tolerate a refused allocation (e.g. the name-compression bookkeeping of
+          the DNS writer): then the group as a whole succeeds and the submission goes on, which
+          is the model's outcome for the oracle that does not refuse this group *)
+       let tolerated = (impl_ret = Some 0 && impl_cbs = []) in
+       let problems =
+         if tolerated then (incr ntolerated; []) else
+         (if r.r_query <> None then ["model says the request proceeds"] else [])
+         @ (if m_leak <> 0 then [Printf.sprintf "model ledger off by %d" m_leak] else [])
+         @ (if Some m_ret <> impl_ret then [Printf.sprintf "return model=%d impl=%s" m_ret
+                                              (match impl_ret with Some v -> string_of_int v | None -> "-")] else [])
+         @ (if m_cbs <> impl_cbs then [Printf.sprintf "callbacks model=[%s] impl=[%s]"
+                                         (String.concat "," (List.map string_of_int m_cbs))
+                                         (String.concat "," (List.map string_of_int impl_cbs))] else [])
+         @ (if m_close <> impl_close then [Printf.sprintf "socket closed by the unwind: model=%b impl=%b" m_close impl_close] else []) in
+       if problems = [] then None else Some (grp_name g ^ ": " ^ String.concat "; " problems)
+     | Err s -> Some (Printf.sprintf "model error %s" (string_of_z s))
+     | UB _ -> Some "model UB")
+
+let () = ()
+let grp_rank g =
+  let order = [GKey; GQuery; GDup; G0x20; GAll; GQid; GConn; GCq; GBuf; GCnode; GSock; GWrite; GTmo; GCqn] in
+  let rec pos i = function [] -> -1 | x :: r -> if x = g then i else pos (i + 1) r in pos 0 order
+
 let fresh_token = 900
 
 let () =
@@ -114,7 +211,8 @@ let () =
   let impl = impl_table Sys.argv.(2) in
   let sites = Hashtbl.create 997 in
   let scen_seen = Hashtbl.create 97 in
-  let nfail = ref 0 in
+  let nfail = ref 0 and nmodel = ref 0 in
+  let last_grp : (string * int, int * grp) Hashtbl.t = Hashtbl.create 97 in
   List.iteri (fun k line ->
     let lines = impl_lines impl k in
     if String.length line > 0 && line.[0] = '#' then Printf.printf "CASE %d trivial-comment\n" k
@@ -181,6 +279,25 @@ let () =
               let v = List.hd (String.split_on_char ' ' (after (key ^ " rc=") l)) in
               api := (key, int_of_string v) :: !api) ["SETSERVERS"; "SETSORTLIST"; "REINIT"; "SETSOCKFUNCS"]) lines;
       let api = List.rev !api in
+      (* the request whose submission call contains the failure: REQ tT .. ALLOCFAIL .. RET tT *)
+      let window =
+        if !failline < 0 then None else begin
+          let arr = Array.of_list lines in
+          let start = ref (-1) and tok = ref (-1) in
+          for li = 0 to !failline - 1 do
+            if starts_with "REQ t" arr.(li) then begin
+              start := li; tok := int_of_string (List.hd (String.split_on_char ' ' (after "REQ t" arr.(li)))) end
+            else if starts_with "RET t" arr.(li) then start := -1
+          done;
+          if !start < 0 then None else begin
+            let stop = ref (Array.length arr) in
+            (try for li = !failline to Array.length arr - 1 do
+                 if starts_with (Printf.sprintf "RET t%d " !tok) arr.(li) then (stop := li; raise Exit) done
+             with Exit -> ());
+            if !stop >= Array.length arr then None
+            else Some (!tok, Array.sub arr !start (!failline - !start), Array.sub arr !failline (!stop - !failline + 1))
+          end
+        end in
       if !failsite <> "" then Hashtbl.replace sites !failsite ();
       Hashtbl.replace scen_seen !scen ();
       if !monitor || not !ended then
@@ -235,7 +352,9 @@ let () =
             | VOrphan (t, st) -> emit ("orphan:" ^ fkey) (detail (Printf.sprintf "token=t%s ends only at teardown with status=%s" (string_of_z t) (string_of_z st)))
             | VBadStatus (t, st) -> emit (Printf.sprintf "bad-status-%s:%s" (string_of_z st) (tok_api t)) (detail ("token=t" ^ string_of_z t))
             | VBadReturn (t, st) -> emit (Printf.sprintf "bad-return-%s:%s" (string_of_z st) (tok_api t)) (detail ("token=t" ^ string_of_z t))
-            | VPartialResult t -> emit ("partial-result:" ^ tok_api t) (detail ("token=t" ^ string_of_z t))
+            | VPartialResult t ->
+              let a = tok_api t in
+              emit ("partial-result:" ^ (if a = "gai" || a = "ghbn" then "getaddrinfo" else a)) (detail ("token=t" ^ string_of_z t ^ " api=" ^ a))
             | VUnusable t -> emit ("unusable:" ^ fkey) (detail ("token=t" ^ string_of_z t))
             | VBadInit st -> emit (Printf.sprintf "bad-init-%s:%s" (string_of_z st) fkey) (detail "")
             | VBadApi (st, b) -> emit ("bad-api:" ^ fkey) (detail (Printf.sprintf "rc=%s baseline=%s" (string_of_z st) (string_of_z b)))
@@ -262,7 +381,34 @@ let () =
                 else "proceeds-other-payload" in
               apif ^ "/" ^ outcome
             end in
-          Printf.printf "CASE %d %s\n" k cls
+          Printf.printf "CASE %d %s\n" k cls;
+          (* model of the submission path at the same allocation group *)
+          (match window, (if !failsite = "" then None else group_of_stack !failsite) with
+           | Some (t, before, afterw), Some g ->
+             let x = Hashtbl.find toks t in
+             (* scenarios that script socket-call failures have an environment the comparison
+                does not reconstruct *)
+             let scripted_socket_failure = find_sub line "fail " <> None in
+             if (x.api = "send" || x.api = "query") && not scripted_socket_failure then begin
+               let has p a = Array.exists (fun l -> starts_with p l) a in
+               let reuse = (match g with GWrite | GTmo | GCqn -> not (has "SOCKET " before) | _ -> false) in
+               let cbs = Array.fold_left (fun acc l ->
+                   if starts_with (Printf.sprintf "CB t%d " t) l then
+                     (match kv "status" l with Some st -> acc @ [int_of_string st] | None -> acc) else acc) [] afterw in
+               let ret = match x.ret with Some v when v <> "void" -> Some (int_of_string v) | _ -> None in
+               incr nmodel;
+               (match send_model_diff cfg g ~reuse ~impl_ret:ret ~impl_cbs:cbs ~impl_close:(has "CLOSE " afterw) with
+                | Some d -> Printf.printf "DIFF %d submission model: %s failsite=%s\n" k d !failsite
+                | None -> ());
+               (* allocation order inside one submission follows the model's group order *)
+               let key = (!scen, t) in
+               (match Hashtbl.find_opt last_grp key with
+                | Some (pk, pg) when pk < k && grp_rank pg > grp_rank g ->
+                  Printf.printf "DIFF %d submission model: group order: %s (case %d) before %s\n" k (grp_name pg) pk (grp_name g)
+                | _ -> ());
+               Hashtbl.replace last_grp key (k, g)
+             end
+           | _ -> ())
         | _ ->
           (* no expectations (baseline crashed at generation time) or incomplete log *)
           Printf.printf "CASE %d trivial-unjudged\n" k
@@ -270,4 +416,6 @@ let () =
     end) cases;
   Printf.printf "STAT distinct_failing_call_stacks %d\n" (Hashtbl.length sites);
   Printf.printf "STAT scenarios %d\n" (Hashtbl.length scen_seen);
-  Printf.printf "STAT oracle_rejections %d\n" !nfail
+  Printf.printf "STAT oracle_rejections %d\n" !nfail;
+  Printf.printf "STAT submission_model_comparisons %d\n" !nmodel;
+  Printf.printf "STAT submission_refusals_tolerated_by_callee %d\n" !ntolerated
